@@ -21,6 +21,9 @@ def run(tier):
             if profiles.check_single(prog, rep, prof, op) is not None:
                 n += 1
     rep.floor("username pipelines extracted", n, 4)
+    # the static forms (PrecisFastInvocation) are part of the public operations: they must forward to these
+    k = sum(profiles.fast_invocation(prog, rep, prof) for prof in ("UsernameCaseMapped", "UsernameCasePreserved"))
+    rep.floor("static-form methods checked", k, 6)
     profiles.normalizer_shape(prog, rep, "normalization_form_nfc", "nfc")
     # the directionality step is `has_rtl(s) ? Bidi rule : ok`; when it applies is part of "all rules, in order"
     # (the Bidi rule's own language is C09)
